@@ -383,3 +383,43 @@ def op_fieldmap(case):
     finally:
         shutil.rmtree(base, ignore_errors=True)
     return {"outs": outs}
+
+
+@register("pv_stream")
+def op_pv_stream(case):
+    """the in-memory PV stream of otel_to_pv for a configuration file (a fresh in-memory database)"""
+    import yaml
+    from tel2puml.otel_to_pv.config import IngestDataConfig
+    from tel2puml.otel_to_pv.otel_to_pv import otel_to_pv
+    with open(case["config"]) as fh:
+        cfg = yaml.safe_load(fh)
+    cfg["data_holders"]["sql"]["db_uri"] = "sqlite:///:memory:"
+    config = IngestDataConfig(**cfg)
+    out = []
+    for name, streams in otel_to_pv(config, ingest_data=True):
+        for stream in streams:
+            out.append({"name": name, "events": [dict(e) for e in stream]})
+    return {"jobs": out}
+
+
+@register("pv_load")
+def op_pv_load(case):
+    """what pv2puml loads from saved job files (with the mapping configuration)"""
+    import os
+    import yaml
+    from tel2puml.pv_to_puml.pv_to_puml import pv_files_to_pv_streams
+    from tel2puml.tel2puml_types import PVEventMappingConfig
+    mc = PVEventMappingConfig()
+    if case.get("mapping"):
+        with open(case["mapping"]) as fh:
+            mc = PVEventMappingConfig(**yaml.safe_load(fh))
+    out = []
+    for wf in sorted(os.listdir(case["dir"])):
+        d = os.path.join(case["dir"], wf)
+        if not os.path.isdir(d):
+            continue
+        files = sorted(os.path.join(d, f) for f in os.listdir(d))
+        for name, jobs in pv_files_to_pv_streams(files, wf, group_by_job_id=False, mapping_config=mc):
+            for job in jobs:
+                out.append({"name": name, "events": [dict(e) for e in job]})
+    return {"jobs": out}
